@@ -15,8 +15,9 @@ RULE = ('one case = one complete run of NSGA-II / eps-MOEA / OMOPSO / SMPSO / PS
         'EpsilonDominance.compare: every call is compared with the textbook constrained-dominance verdict, re-called with '
         'swapped arguments (antisymmetry) and with identical arguments (irreflexivity / eps tie-break); up to 60 triples '
         'per sorted pool are sampled for transitivity.  Non-trivial = at least one comparator call was judged; distinct = '
-        'hash of (configuration, calls, last vectors).  Not reachable from runs and therefore NOT covered: real-valued '
-        'violation degrees in the marker (artap only produces True/False), m > 4.')
+        'hash of (configuration, calls, last vectors).  Pairs derived from run pools (a coordinate tied, the marker flipped or '
+        'replaced by a violation degree of either sign, a coordinate negated) are fed to the Pareto comparator as well.  '
+        'NOT covered: m > 4.')
 ASSUMPTIONS = [
     'in-run invariant only: the quantifier "all pairs and triples" is covered on the arguments that arise in runs',
     'eps comparator: equality with the textbook verdict is demanded when every differing coordinate differs by more than 1e-9 relative',
@@ -27,7 +28,7 @@ COMPONENTS = {
     'stub': ['user objective', 'PRNG seam', 'joblib', 'time.time', 'uuid1'],
 }
 PROBES_EXPECTED = ['pareto_calls', 'eps_calls', 'm1', 'm2', 'm3', 'm4', 'mixed_markers', 'identical_vectors', 'coordinate_tie',
-                   'maximised_objective', 'transitivity_triples', 'verdict_0', 'verdict_1', 'verdict_2']
+                   'maximised_objective', 'transitivity_triples', 'verdict_0', 'verdict_1', 'verdict_2', 'derived_pairs']
 
 
 def hooks(ctx, w, D):
@@ -88,10 +89,46 @@ def hooks(ctx, w, D):
                               % (r, back, list(p), list(q)))
         return r
 
+    def derived(comp, pool, key):
+        """the comparators are pure: re-invoke them on pairs derived from run-produced vectors - one coordinate tied, the
+        marker flipped or replaced by a violation degree of either sign, a coordinate negated - so that argument classes the
+        optimisers happen not to produce (markers are only False/True in runs) are judged too"""
+        cmp_ = monitors.ORIG['pareto_compare']
+        n = len(pool)
+        for t in range(min(12, n * n)):
+            a = list(pool[D.dec('work', ('dv', key, t, 0), n)])
+            b = list(pool[D.dec('work', ('dv', key, t, 1), n)])
+            k = D.dec('work', ('dv', key, t, 2), 6)
+            m = len(a) - 1
+            j = D.dec('work', ('dv', key, t, 3), m)
+            if k == 0:
+                b[j] = a[j]
+            elif k == 1:
+                b[-1] = not bool(a[-1])
+            elif k == 2:
+                a[-1], b[-1] = (-0.3, 0.5, 0.2, 0.0)[D.dec('work', ('dv', key, t, 4), 4)], (0.1, -0.7, 0.0, 0.2)[D.dec('work', ('dv', key, t, 5), 4)]
+            elif k == 3:
+                b = list(a)
+            elif k == 4:
+                a[j], b[j] = -a[j], -b[j]
+            ctx.probe('derived_pairs')
+            exp = R.dominates(a, b)
+            got = cmp_(comp, a, b)
+            if got != exp:
+                ctx.violation('pareto_verdict', 'ParetoDominance.compare', 'compare(%r, %r) = %r, textbook verdict %r (pair derived from a run pool)'
+                              % (a, b, got, exp))
+                return
+            if cmp_(comp, b, a) != {0: 0, 1: 2, 2: 1}[got]:
+                ctx.violation('antisymmetry', 'ParetoDominance.compare', 'compare(p, q) = %r but compare(q, p) = %r for p=%r q=%r'
+                              % (got, cmp_(comp, b, a), a, b))
+                return
+
     def sorting(orig, self, individuals):
         r = orig(self, individuals)
         pool = [i.costs_signed for i in individuals]
         n = len(pool)
+        if n >= 2 and state['n'] < 30 and not ctx.violations:
+            derived(self.comparator, pool, state['n'])
         if n >= 3:
             state['n'] += 1
             cmp_ = monitors.ORIG['pareto_compare']
